@@ -446,9 +446,9 @@ impl<'a> G<'a>
 
     fn new_inst(&mut self, origin: Origin, depth: u32) -> Inst
     {
-        let flavour = match origin { Origin::Once | Origin::World(_) | Origin::EntityWorld(_) => Flavour::Plain, _ => { let f = self.flavour(); if matches!(f, Flavour::FallibleWarn | Flavour::ExclusiveWarn) && origin == Origin::On { Flavour::Plain } else { f } } };
+        let flavour = match origin { Origin::Once => { match self.r.below(10) { 0 | 1 => Flavour::FallibleWarn, 2 => Flavour::FallibleDrop, 3 => Flavour::Exclusive, _ => Flavour::Plain } } Origin::World(_) | Origin::EntityWorld(_) => Flavour::Plain, _ => { let f = self.flavour(); if matches!(f, Flavour::FallibleWarn | Flavour::ExclusiveWarn) && origin == Origin::On { Flavour::Plain } else { f } } };
         let id = self.insts.len() as Inst;
-        self.insts.push(InstDef { flavour, origin, scripts: Vec::new() });
+        self.insts.push(InstDef { flavour, origin, scripts: Vec::new(), rc: false });
         let scripts = self.scripts(Some(id), flavour, depth);
         self.insts[id as usize].scripts = scripts;
         id
@@ -504,7 +504,7 @@ impl<'a> G<'a>
             x if x == D::Gc as usize => WOp::Gc,
             x if x == D::Poll as usize => WOp::Poll,
             x if x == D::Flush as usize => WOp::Flush,
-            x if x == D::KillInst as usize => WOp::KillInst(self.target(me)),
+            x if x == D::KillInst as usize => { let t = self.target(me); if self.insts.get(t as usize).map(|d| d.rc).unwrap_or(false) && self.r.chance(65) { WOp::DropInstSig(t) } else { WOp::KillInst(t) } }
             x if x == D::SysEvent as usize => { let t = self.target(me); if self.no_event(t) { WOp::Run(t) } else { WOp::SysEvent(t, self.p()) } }
             x if x == D::Broadcast as usize => WOp::Broadcast(self.p()),
             x if x == D::EntityEvent as usize => WOp::EntityEvent(s, self.p()),
@@ -521,6 +521,7 @@ impl<'a> G<'a>
             {
                 // anywhere: inside trees, batches and exclusive bodies (collections are observed, so no placement rule is needed)
                 let k = self.r.below(4) as u8;
+                if driver && self.r.chance(12) { return Some(WOp::RcScratch(self.r.below(4) as u8, self.r.chance(40))); }
                 match self.r.below(10) { 0 | 1 => WOp::SigPrepare(k, s), 2 | 3 => WOp::SigClone(k), 4 => WOp::SigMoveInto(k, s), 5 => WOp::SigDropUnwind(k), _ => WOp::SigDrop(k) }
             }
             x if x == D::Acc as usize =>
@@ -665,13 +666,13 @@ pub fn generate(seed: u64, base: &Cfg) -> Program
     g.c.pct_hot = base.pct_hot;
     // pre-spawned actors: ids first so scripts can target all of them
     let npre = g.r.range(g.c.pre_insts.0, g.c.pre_insts.1) as usize;
-    for _ in 0..npre { let mut f = g.flavour(); if f == Flavour::Plain && g.r.chance(8) { f = Flavour::CustomCb; } g.insts.push(InstDef { flavour: f, origin: Origin::Pre, scripts: Vec::new() }); }
+    for _ in 0..npre { let mut f = g.flavour(); if f == Flavour::Plain && g.r.chance(8) { f = Flavour::CustomCb; } let rc = f != Flavour::CustomCb && g.r.chance(12); g.insts.push(InstDef { flavour: f, origin: Origin::Pre, scripts: Vec::new(), rc }); }
     g.targets = (0..npre as u8).collect();
     let napp = g.r.range(g.c.app_reactors.0, g.c.app_reactors.1) as usize;
     let app_first = g.insts.len();
-    for _ in 0..napp { let f = if g.r.chance(25) { Flavour::FallibleDrop } else { Flavour::Plain }; g.insts.push(InstDef { flavour: f, origin: Origin::App, scripts: Vec::new() }); }
-    for k in 0..wrn { g.insts.push(InstDef { flavour: Flavour::Plain, origin: Origin::World(k as u8), scripts: Vec::new() }); g.wr.push(k as u8); }
-    for k in 0..ewrn { g.insts.push(InstDef { flavour: Flavour::Plain, origin: Origin::EntityWorld(k as u8), scripts: Vec::new() }); g.ewr.push(k as u8); }
+    for _ in 0..napp { let f = if g.r.chance(25) { Flavour::FallibleDrop } else { Flavour::Plain }; g.insts.push(InstDef { flavour: f, origin: Origin::App, scripts: Vec::new(), rc: false }); }
+    for k in 0..wrn { g.insts.push(InstDef { flavour: Flavour::Plain, origin: Origin::World(k as u8), scripts: Vec::new(), rc: false }); g.wr.push(k as u8); }
+    for k in 0..ewrn { g.insts.push(InstDef { flavour: Flavour::Plain, origin: Origin::EntityWorld(k as u8), scripts: Vec::new(), rc: false }); g.ewr.push(k as u8); }
     let fixed = g.insts.len();
     // registration class of the pre-spawned actors is decided before scripts are generated
     let modes0: Vec<Mode> = (0..npre).map(|_| g.mode()).collect();
